@@ -132,6 +132,35 @@ fn boundary_chains() -> Vec<Vec<Def>> {
             }
         }
     }
+    // the same extremes held by a constant whose suffix converts them to a wider type: the later constant
+    // must see the converted value and type (no Overflow for K1& + K1&), bare and with the suffix
+    for (xi, ex) in extremes.iter().enumerate() {
+        let sfxs: &[char] = if xi % 2 == 0 { &['&', '!', '#'] } else { &['!', '#'] };
+        for sfx in sfxs {
+            for (c, t) in [("Plus", "+"), ("Minus", "-"), ("Multiply", "*")] {
+                for j in 0..3 {
+                    let e = match j {
+                        0 => CE::Bin(c, t, Box::new(CE::Ref(0, None)), Box::new(CE::Ref(0, None))),
+                        1 => CE::Bin(c, t, Box::new(CE::Ref(0, Some(*sfx))), Box::new(l(Variant::VInteger(2), "2"))),
+                        _ => CE::Bin(c, t, Box::new(neg(l(Variant::VInteger(2), "2"))), Box::new(CE::Ref(0, None))),
+                    };
+                    out.push(vec![
+                        Def { name: "K1".into(), suffix: Some(*sfx), e: ex.clone() },
+                        Def { name: "K2".into(), suffix: None, e },
+                    ]);
+                }
+            }
+        }
+    }
+    // a fractional value held by an integer constant
+    for (sfx, v, t) in [('%', Variant::VSingle(2.5), "2.5"), ('&', Variant::VSingle(1.5), "1.5"), ('%', Variant::VDouble(0.25), "0.25#")] {
+        for (c, tx) in [("Plus", "+"), ("Multiply", "*"), ("Divide", "/")] {
+            out.push(vec![
+                Def { name: "K1".into(), suffix: Some(sfx), e: l(v.clone(), t) },
+                Def { name: "K2".into(), suffix: None, e: CE::Bin(c, tx, Box::new(CE::Ref(0, None)), Box::new(l(Variant::VInteger(2), "2"))) },
+            ]);
+        }
+    }
     out
 }
 
@@ -454,6 +483,6 @@ pub fn run(args: &Args) {
     sum.write(
         &args.out,
         evaluations,
-        "chains of 1-3 CONST definitions (expression depth <= 3 over all 13 binary operators, unary minus and NOT, parentheses, boundary literals of all five types, earlier constants; optional type suffix on the constant), preceded by 208 boundary chains (every binary operator with -32768, -2147483647 - 1, 32767 or 2147483647 held by an earlier constant on either side). For each chain: checker verdict and the literal replacing a use (value and type) compared with Const.const_chain in Coq; PRINT of the constant bare / with suffix / from a SUB / defined in a SUB compared with each other and with PRINT of the inlined expression; rejections for Overflow / Division by zero compared with the run-time error of the inlined expression. Non-trivial = distinct chains.",
+        "chains of 1-3 CONST definitions (expression depth <= 3 over all 13 binary operators, unary minus and NOT, parentheses, boundary literals of all five types, earlier constants; optional type suffix on the constant), preceded by 307 boundary chains (every binary operator with -32768, -2147483647 - 1, 32767 or 2147483647 held by an earlier constant on either side; the same extremes and fractional values held by a constant whose suffix converts them, used bare and with the suffix). For each chain: checker verdict and the literal replacing a use (value and type) compared with Const.const_chain in Coq; PRINT of the constant bare / with suffix / from a SUB / defined in a SUB compared with each other and with PRINT of the inlined expression; rejections for Overflow / Division by zero compared with the run-time error of the inlined expression. Non-trivial = distinct chains.",
     );
 }
